@@ -287,6 +287,13 @@ func BMFFShape(r *core.Rng) ([]byte, string) {
 	case 1:
 		out = Ftyp("crx ", 1, "crx ", "isom").Serialise(nil)
 		moov := canonUUIDShape(r)
+		if r.Chance(1, 3) {
+			// an opaque box in front of the metadata box claims more than it holds (a little: into
+			// its sibling; a lot: beyond moov)
+			ob := rawBox(r.PickStr("free", "mvhd", "abcd", "skip"), r.Bytes(r.Range(0, 24)))
+			copy(ob, be32(len(ob)+r.Pick(1, 8, 9, 100, 4000, 100000)))
+			moov = append(ob, moov...)
+		}
 		if r.Bool() {
 			moov = append(moov, rawBox("mvhd", r.Bytes(r.Range(0, 30)))...)
 		}
@@ -615,6 +622,40 @@ func indexOf(s, sub string) int {
 	return -1
 }
 
+// ManyBlocksShape is a well-formed file with hundreds or thousands of minimal Exif blocks: a
+// JPEG with that many tiny Exif APP1 segments, or a CR3 whose Canon box holds that many CMT
+// boxes. Each block alone is ordinary; what a decoder allocates or keeps per block adds up.
+func ManyBlocksShape(r *core.Rng) ([]byte, string) {
+	n := r.Pick(300, 1000, 1800, 2500)
+	tiff := func() []byte {
+		if r.Bool() {
+			return []byte("II*\x00\x08\x00\x00\x00\x00\x00\x00\x00\x00\x00")
+		}
+		return []byte("MM\x00*\x00\x00\x00\x08\x00\x00\x00\x00\x00\x00")
+	}
+	if r.Bool() {
+		out := []byte{0xFF, 0xD8}
+		for i := 0; i < n; i++ {
+			p := append([]byte(ExifPrefix), tiff()...)
+			out = append(out, 0xFF, 0xE1, byte((len(p)+2)>>8), byte(len(p)+2))
+			out = append(out, p...)
+		}
+		out = append(out, 0xFF, 0xDB, 0x00, 0x43, 0x00)
+		out = append(out, make([]byte, 64+80)...)
+		out = append(out, 0xFF, 0xD9)
+		return out, fmt.Sprintf("manyblocks jpeg n=%d len=%d", n, len(out))
+	}
+	var kids []byte
+	kids = append(kids, rawBox("CNCV", []byte("CanonCR3_001/00.09.00/00.00.00"))...)
+	for i := 0; i < n; i++ {
+		kids = append(kids, rawBox([]string{"CMT1", "CMT2", "CMT4", "CMT3"}[i%4], tiff())...)
+	}
+	out := Ftyp("crx ", 1, "crx ", "isom").Serialise(nil)
+	out = append(out, rawBox("moov", rawBox("uuid", append(append([]byte{}, UUIDCanonMeta...), kids...)))...)
+	out = append(out, rawBox("mdat", r.Bytes(64))...)
+	return out, fmt.Sprintf("manyblocks cr3 n=%d len=%d", n, len(out))
+}
+
 // Shape draws one grammar-based hostile input of any family.
 func Shape(r *core.Rng) ([]byte, string) {
 	switch r.Intn(12) {
@@ -628,6 +669,10 @@ func Shape(r *core.Rng) ([]byte, string) {
 		return AlignedCR3Shape(r)
 	case 6, 7:
 		return XMPShape(r)
+	case 8:
+		if r.Chance(1, 3) {
+			return ManyBlocksShape(r)
+		}
 	}
 	return BMFFShape(r)
 }
